@@ -23,6 +23,7 @@ import CelloProofs.Lemmas.TextFloat
 import CelloProofs.Lemmas.TextRound
 import CelloProofs.Lemmas.TextSeq
 import CelloProofs.Lemmas.TextFmt
+import CelloProofs.Lemmas.TextBridge
 
 namespace Cello.Text
 
@@ -226,6 +227,26 @@ theorem C15_format_roundtrip (k : Kind) (pre : List Nat) (its : List Item) (z : 
       rfl
     rw [h2, ← h1, Option.map_some]
     exact congrArg some hseq.2
+
+/-- the conversion set C14's theorems are stated over (`Fmt.cfgNow.conv`, extracted from `print_to_with` by C14's generator) is,
+    character for character, the set this model cuts with (extracted by this engine's generator), and has what the bridge needs -/
+theorem C15_C14_conv_agree :
+    srcCfg.printConv.map Char.ofNat = Cello.Fmt.cfgNow.conv ∧ bridgeOK Cello.Fmt.cfgNow.conv = true := by
+  constructor <;> decide
+
+/-- **One segmentation, two models (the writer half of `C15_format_roundtrip` and C14).**  For every sequence `its` whose separators
+    are non-empty, `%`-free, not adjacent and made of bytes 1…255: the scanner of this model (`segment`, byte lists) cuts the format
+    text into `its.map Item.seg`; C14's parser (`Fmt.parseFmt`, about which `C14_checked_format` proves that `print_to_with` — the
+    index-based model `Fmt.loop` with `fmt_buf` — makes one `format_to` per literal run and one dispatch per specification, in
+    order, within the buffers) cuts the same characters into `its.map Item.fmtSeg`; and segment by segment the two are the same text. -/
+theorem C15_C14_same_segmentation (its : List Item) (hf : fmtOK its = true)
+    (hb : ∀ t, Item.lit t ∈ its → ∀ b ∈ t, b ≠ 0 ∧ b < 256) :
+    segment srcCfg.printConv (its.flatMap Item.fmt) = its.map Item.seg ∧
+    Cello.Fmt.parseFmt Cello.Fmt.cfgNow.conv (toStr (its.flatMap Item.fmt)) = some (its.map Item.fmtSeg) ∧
+    ∀ it ∈ its, it.fmtSeg.text = toStr it.fmt :=
+  ⟨segment_render _ (convFacts_of_ok _ C15_conv_sets.2) its hf,
+   bridge_parse _ C15_C14_conv_agree.2 its hf hb,
+   fun it _ => fmtSeg_text it⟩
 
 /-- **Float, position part (T1).**  For every floating specification `%[l]<cv>`, `cv ∈ {f F e E g G}`, every finite double and
     every following text that does not continue the number (`fspecSafe`: no digit, no `e`/`E`; after `%g`/`%G` also no `.` and no
